@@ -15,6 +15,10 @@ import traceback
 VERIF = os.path.dirname(os.path.dirname(os.path.abspath(__file__)))
 EVIDENCE_DIR = os.path.join(VERIF, "evidence")
 REPLAY_DIR = os.path.join(VERIF, "replays")
+if os.environ.get("VERIF_REPO"):
+    # not /repo but a scratch copy (a seeded change being tried): its evidence and replays stay with the scratch copy
+    EVIDENCE_DIR = os.path.join(os.environ["VERIF_REPO"], ".verif", "evidence")
+    REPLAY_DIR = os.path.join(os.environ["VERIF_REPO"], ".verif", "replays")
 KNOWN_FILE = os.path.join(VERIF, "known_findings.json")
 
 
